@@ -17,7 +17,7 @@ var wide = []string{"€", "漢", "字", "😀", "Ω", "ž"}
 // text fragments that look like escapes of the notations data passes through on its way out (JSON
 // string escapes, HTML-safe JSON escapes, XML entities, URL encoding); none contains a delimiter of
 // a generated format
-var escapeLike = []string{`\u0026`, `\u003c`, `\u003e`, `\u2028`, `\n`, `\\`, `\`, `&amp;`, `&#38;`, `&lt;`, `%26`, `<b>`, `&`, `<`, `>`}
+var escapeLike = []string{`\u0026`, `\u003c`, `\u003e`, `\u2028`, `\n`, `\\`, `\`, `&amp`, `&#38`, `&lt`, `%26`, `<b>`, `&`, `<`, `>`}
 
 // Charset describes which runes values may contain.
 type Charset struct {
@@ -316,8 +316,22 @@ func (g *declGen) leaf(fs []string, intField string) D {
 		// a script result that contains itself reaches a place that cannot use it (and has to say so):
 		// a string argument, the name of a javascript argument, the value of an xpath_dynamic
 		g.usesJS = true
-		cyc := cf("javascript", D{"const": "(function(){ var o = {k: a}; o.self = o; return o })()"}, D{"const": "a"}, D{"xpath": pick()})
-		switch g.t.Intn("decl.cyclic.where", 9) {
+		cycScript := "(function(){ var o = {k: a}; o.self = o; return o })()"
+		if g.t.Chance("decl.cyclic.container", 1, 3) {
+			// ... the same through the other containers a script can return
+			cycScript = g.t.Pick("decl.cyclic.container.kind",
+				"(function(){ var r = [a]; r[1] = r; return r })()",
+				"(function(){ var m = new Map(); m.set('k', a); m.set('self', m); return m })()",
+				"(function(){ var s = new Set(); s.add(a); s.add(s); return s })()",
+				"(function(){ var m = new Map(); m.set(m, a); return m })()",
+				"(function(){ var m = new Map(); var s = new Set(); s.add(m); m.set('s', s); return m })()",
+				"(function(){ var m = new Map(); m.set('o', {k: a, back: m}); return m })()")
+		}
+		cyc := cf("javascript", D{"const": cycScript}, D{"const": "a"}, D{"xpath": pick()})
+		switch g.t.Intn("decl.cyclic.where", 11) {
+		case 9, 10:
+			// ... or is the value of the declaration itself
+			return cyc
 		case 7:
 			// a script that leaves an accessor named like its own argument on the global object, invisible
 			// to an enumeration, impossible to delete: the NEXT run of the script meets it while its
